@@ -6,8 +6,97 @@ import QV.C08.Model
 namespace QV.C08
 open QV QV.Prog QV.C09
 
+def decStrs : Sexp → Option (List String)
+  | .list xs => xs.mapM Sexp.asStr?
+  | _ => none
+
+partial def decDOp : Sexp → Option DOp
+  | .list [.atom "simplify", out, kF, kW, kE] => do
+    pure (.simplify (← decInstrs out) (← decStrs kF) (← decStrs kW) (← decStrs kE))
+  | .list [.atom "intersect", ks] => (decStrs ks).map .intersect
+  | .list [.atom "merge"] => some .merge
+  | .list [.atom "calExtend"] => some .calExtend
+  | .list [.atom "extExtend"] => some .extExtend
+  | .list [.atom "calRemove", .str k] => some (.calRemove k)
+  | .list [.atom "mcalRemove", .str k] => some (.mcalRemove k)
+  | .list [.atom "expCal", out] => (decInstrs out).map .expCal
+  | .list [.atom "expSeq", kept, out] => do pure (.expSeq (← decStrs kept) (← decInstrs out))
+  | .list [.atom "clone"] => some .clone
+  | .list [.atom "cloneWb"] => some .cloneWb
+  | .list [.atom "wrap", n, hd, tl] => do pure (.wrap (← n.asNat?) (← decInstrs hd) (← decInstrs tl))
+  | .list [.atom "resolve", nb] => (decInstrs nb).map .resolve
+  | .list [.atom "sum", a, b] => do pure (.sum (← decDOp a) (← decDOp b))
+  | _ => none
+
+def dopName : DOp → String
+  | .simplify .. => "simplify" | .intersect ks => s!"intersect{min ks.length 9}" | .merge => "merge"
+  | .calExtend => "calExtend" | .extExtend => "extExtend" | .calRemove _ => "calRemove"
+  | .mcalRemove _ => "mcalRemove" | .expCal _ => "expCal" | .expSeq .. => "expSeq" | .clone => "clone"
+  | .cloneWb => "cloneWb" | .wrap n _ _ => s!"wrap{min n 2}" | .resolve _ => "resolve" | .sum .. => "sum"
+
+def dopInstrs : DOp → List Instr
+  | .simplify out _ _ _ => out | .expCal out => out | .expSeq _ out => out
+  | .wrap _ hd tl => hd ++ tl | .resolve nb => nb | .sum a b => dopInstrs a ++ dopInstrs b
+  | _ => []
+
+def undec (out : Sexp) : CaseResult :=
+  { agree := false, specOk := true, nontrivial := false, tags := ["undecodable-output"], detail := s!"impl={out}" }
+
+/-- derived programs: a producing operation applied to built programs -/
+def handleDerived (px qx opx out : Sexp) : CaseResult :=
+  match decInstrs px, decInstrs qx with
+  | some pis, some qis =>
+    match opx, out with
+    | .list [.atom "fail"], .list [.atom "dfail", b] =>
+      { agree := b == .atom "true", specOk := true, nontrivial := false, tags := ["derived", "d-op-error"],
+        detail := s!"operation error; impl says failed={b}" }
+    | _, .list [.atom "dout", .list (.atom "new" :: nw), .list [.atom "base", bx], .list [.atom "qbase", qbx],
+               .list [.atom "to", tx], .list [.atom "text", .str t], .list (.atom "same" :: ss),
+               .list [.atom "child", c], .list [.atom "left", lx], .list [.atom "right", rx],
+               .list [.atom "keymm", km], .list (.atom "sib" :: sibs)] =>
+      match decDOp opx, nw.mapM decInstr, ss.mapM decBool, km.asNat?, sibs.mapM Sexp.asStr? with
+      | some op, some fresh, some sames, some keymm, some sib =>
+        let tbl := pis ++ qis ++ dopInstrs op ++ fresh
+        match decPids tbl bx, decPids tbl qbx, decPids tbl tx, decPids tbl lx, decPids tbl rx with
+        | some base, some qbase, some toL, some left, some right =>
+          let p := fromInstructions pis
+          let q := fromInstructions qis
+          let d := derive p q op
+          let agree := tbl.all Instr.projOk && keymm == 0 && sib.isEmpty &&
+            decide (toInstructions p = base) && decide (toInstructions q = qbase) &&
+            decide (toInstructions d = toL) && print d == t
+          let childSkipped := c == .atom "skipped"
+          let childOk := c == .atom "true" || childSkipped
+          let detOk := sames.all id && sames.length == 5
+          -- first-added order: the base listings satisfy the listing spec; the derived listing keeps the
+          -- base's order per kind (old keys first, as a sub-list of the base order; new keys after)
+          let isSum := match op with | .sum .. => true | _ => false
+          let orderOk := checkListing pis base && checkListing qis qbase &&
+            (if isSum then ordPresListing base left && ordPresListing qbase right && ordPresListing left toL
+             else ordPresListing base toL)
+          -- kinds still in the fixed order
+          let kindOk := decide (toL = Kind.all.flatMap (fun k => ofKind k toL))
+          let specOk := orderOk && kindOk && detOk && childOk && keymm == 0 && sib.isEmpty
+          let dropped := Kind.defs.any fun k => (ofKind k toL).length < (ofKind k base).length
+          let keptMany := Kind.defs.any fun k => (ofKind k toL).length ≥ 2 && (ofKind k toL).length < (ofKind k base).length
+          { agree, specOk, nontrivial := true,
+            tags := ["derived", "d-" ++ dopName op] ++ (if dropped then ["d-drops"] else []) ++
+              (if keptMany then ["d-keeps>=2-drops>=1"] else []) ++
+              (if keymm == 0 then [] else ["key-mismatch"]) ++ (if sib.isEmpty then [] else ["sibling-mismatch"]) ++
+              (if childSkipped then ["child-skipped"] else if childOk then ["child-same"] else ["child-DIFFERS"]),
+            detail := s!"op={dopName op} | model: {showListing (toInstructions d)} | impl: {showListing toL} | " ++
+              s!"base={showListing base} | same={sames} child={c} textEq={print d == t} orderOk={orderOk} kindOk={kindOk} " ++
+              s!"keyMismatches={keymm} failedSiblingRelations={sib}" }
+        | _, _, _, _, _ => undec out
+      | _, _, _, _, _ => undec out
+    | _, _ => undec out
+  | _, _ => .bad "undecodable derived input"
+
 def handle (inp out : Sexp) : CaseResult :=
   match inp with
+  | .list [.atom "derived", px, qx, opx] => handleDerived px qx opx out
+  | .list (.atom "derived" :: _) =>
+    { agree := false, specOk := false, nontrivial := false, tags := ["derived", "generation-panicked"], detail := s!"{inp} -> {out}" }
   | .list [.atom "hist", isx, .list (.atom "cuts" :: cs)] =>
     match decInstrs isx, cs.mapM Sexp.asNat? with
     | some is, some cuts =>
